@@ -21,6 +21,7 @@ def errName : Err → String
   | .lrshSeq => "ExceptionLogicalRecordSegmentHeaderSequence"
   | .fuel => "MODEL-FUEL"
   | .regexChanged => "MODEL-REGEX"
+  | .attribute => "AttributeError"
 
 def bool01 (s : String) : Option Bool :=
   if s = "1" then some true else if s = "0" then some false else none
